@@ -390,6 +390,7 @@ func runC08(p *Program, r *Report) {
 	}
 	checkThreadedState(p, r, "R08b", []*ssa.Function{e}, 2)
 	checkGeometryConsistent(p, r, "R08d", []*ssa.Function{e})
+	checkEmptyForestHasNoPositions(p, r, "R08e", e)
 
 	r.Rule("R08c", "INVERSE-ORDER: the cached-proof undo reverts the additions of the block before its deletions, and reverts the deletions for the leaf count the forest had before the additions (numLeaves - numAdds)")
 	key := "(*Proof).Undo/inverse-order"
@@ -449,7 +450,8 @@ func init() {
 			"caller-ordered list never reaches a function that requires sorted input; R08b - when an undo helper returns the updated version of a list it was given, the caller takes it " +
 			"over instead of going on with the list it passed in; R08c - the additions of the block are reverted before its deletions and the deletion step works with the leaf count " +
 			"before the additions (numLeaves - numAdds); R08d - within one function the elements of a position list that the function never writes are handed to leaf-count-dependent " +
-			"position functions with one and the same leaf count (a contradiction rule).",
+			"position functions with one and the same leaf count (a contradiction rule); R08e - outside the hashing core, a call of maxPositionAtRow (inexact for a forest without leaves) is " +
+			"dominated by a test that the leaf count it is given is not zero.",
 		NotDecided: "every numerical clause: which positions survive pruneEdges, calcPrevPosition, which leaves are kept or dropped, canonicity of the resulting proof, undo depth and redo.",
 		Rules: []RuleDef{
 			{ID: "R08", Statement: "threaded undo state; inverse order of the two phases", Run: runC08},
@@ -581,4 +583,84 @@ func leafCountClass(v ssa.Value) string {
 		return leafCountClass(x.X)
 	}
 	return ""
+}
+
+// ---------------------------------------------------------------------------
+// R08e EMPTY-FOREST-HAS-NO-POSITIONS. maxPositionAtRow answers "the last
+// populated position of a row" - and answers 0 for an empty forest, so that
+// position 0 "exists" with no leaves (reviewed; witness: undoing the first
+// block keeps the leaf the block added). Where the cached-proof undo decides
+// with it whether an entry existed before the block, the decision has to be
+// dominated by a test that the pre-block leaf count is not zero (or be made
+// with the exact test inForest instead).
+
+var inexactForEmptyForest = map[string]string{
+	"maxPositionAtRow": "returns 0 for a forest without leaves, which reads as 'position 0 is populated'",
+}
+
+func checkEmptyForestHasNoPositions(p *Program, r *Report, rule string, e *ssa.Function) {
+	r.Rule(rule, "EMPTY-FOREST-HAS-NO-POSITIONS: where the cached-proof undo decides with maxPositionAtRow (inexact for a forest without leaves) whether an entry existed before the block, the decision is dominated by a test that the pre-block leaf count is not zero")
+	reach := p.StaticReach(e)
+	reach[e] = true
+	core := resolveVerifyAnchors(p).core
+	n := 0
+	for _, g := range sortedFuncs(p, reach) {
+		if g.Blocks == nil || !p.owns(g) || g == core {
+			// in the hashing core the bound only limits a claimed position; a position wrongly let
+			// through is refused by the root match, nothing is kept on its strength
+			continue
+		}
+		for _, sc := range callsIn(p, g) {
+			callee := sc.call.Common().StaticCallee()
+			if callee == nil || !p.owns(callee) {
+				continue
+			}
+			why, inexact := inexactForEmptyForest[callee.Name()]
+			if !inexact {
+				continue
+			}
+			// the leaf-count argument
+			var count ssa.Value
+			for i, par := range callee.Params {
+				if isUint64(par.Type()) && strings.EqualFold(par.Name(), "numLeaves") && i < len(sc.call.Common().Args) {
+					count = sc.call.Common().Args[i]
+				}
+			}
+			if count == nil {
+				continue
+			}
+			n++
+			key := fmt.Sprintf("%s->%s#%d/empty-forest", p.FuncName(g), sc.label, sc.ord)
+			// a dominating guard: count != 0, count > 0, or (for count = a - b) a != b / a > b
+			guarded := false
+			for _, gd := range guardsAt(sc.call.Block()) {
+				rel, ok := relOf(gd)
+				if !ok {
+					continue
+				}
+				isZero := func(v ssa.Value) bool {
+					c, ok := v.(*ssa.Const)
+					return ok && c.Value != nil && c.Uint64() == 0
+				}
+				same := func(a, b ssa.Value) bool { return a == b || sameValue(a, b) }
+				switch rel.Op {
+				case token.NEQ, token.GTR, token.LSS:
+					if (same(rel.X, count) && isZero(rel.Y)) || (same(rel.Y, count) && isZero(rel.X)) {
+						guarded = true
+					}
+					if bo, ok := count.(*ssa.BinOp); ok && bo.Op == token.SUB {
+						if (same(rel.X, bo.X) && same(rel.Y, bo.Y)) || (same(rel.X, bo.Y) && same(rel.Y, bo.X)) {
+							guarded = true
+						}
+					}
+				}
+			}
+			if guarded {
+				r.Discharge(rule, key, posOf(p, sc.call), "the call is dominated by a test that the leaf count it is given is not zero", true)
+			} else {
+				r.Violate(rule, key, posOf(p, sc.call), callee.Name()+" "+why+", and nothing here excludes a pre-block forest without leaves: undoing the very first block keeps position 0 - a leaf the undone block added", "in "+p.FuncName(g))
+			}
+		}
+	}
+	r.Floor(rule, "existence decisions with an inexact test in the cached-proof undo", n, 1)
 }
